@@ -130,8 +130,71 @@ def replay_crypto(rng=None):
     return dict(confirmed=False, call='AES-CFB8 / RSA round trips', observed='conform')
 
 
+class WrapperDelegation(Unit):
+    """fileno / close / shutdown of the two cipher wrappers act on the wrapped object, once, with the same arguments:
+    select() waits on the real descriptor and disconnect() really closes the transport once the channel is encrypted."""
+    prop = 'C18'
+    name = 'C18.wrapper.delegation'
+    int_mode = 'int'
+    functions = tuple('minecraft.networking.encryption.%s' % n for n in (
+        'EncryptedFileObjectWrapper.fileno', 'EncryptedFileObjectWrapper.close', 'EncryptedSocketWrapper.fileno',
+        'EncryptedSocketWrapper.close', 'EncryptedSocketWrapper.shutdown'))
+
+    def run(self, I):
+        import types
+        E = I.E
+        log = []
+        fd = E.new_int('fd', 0, 1 << 20)
+        how = E.new_int('how', 0, 2)
+        actual = types.SimpleNamespace(fileno=lambda: (log.append('fileno'), fd)[1], close=lambda: log.append('close'),
+                                       shutdown=lambda *a, **k: log.append(('shutdown', a, k)))
+        which = E.fork(2, 'wrapper')
+        if which == 0:
+            w = I.call(encryption.EncryptedFileObjectWrapper, actual, 'DEC')
+        else:
+            w = I.call(encryption.EncryptedSocketWrapper, actual, 'ENC', 'DEC')
+        r = I.call(I.getattr_(w, 'fileno'))
+        E.check('delegation.fileno', And(I.equals(r, fd), log == ['fileno']), note='the descriptor of the real object')
+        I.call(I.getattr_(w, 'close'))
+        E.check('delegation.close', log == ['fileno', 'close'], note='exactly one close of the real object')
+        if which == 1:
+            I.call(I.getattr_(w, 'shutdown'), how)
+            E.check('delegation.shutdown', len(log) == 3 and log[2][0] == 'shutdown' and len(log[2][1]) == 1 and
+                    I.truth(I.equals(log[2][1][0], how)) and log[2][2] == {}, note='shutdown(how) forwarded unchanged')
+        return None
+
+    def replay(self, model, label):
+        import socket
+        a, b = socket.socketpair()
+        c = encryption.create_AES_cipher(bytes(16))
+        w = encryption.EncryptedSocketWrapper(a, c.encryptor(), c.decryptor())
+        f = encryption.EncryptedFileObjectWrapper(a.makefile('rb', 0), c.decryptor())
+        bad = None
+        try:
+            if w.fileno() != a.fileno() or f.fileno() != a.fileno():
+                bad = 'fileno() is not the descriptor of the wrapped socket'
+            w.shutdown(socket.SHUT_RDWR)
+            if b.recv(1) != b'':
+                bad = bad or 'shutdown did not reach the real socket'
+            f.close()
+            w.close()
+            if a.fileno() != -1:
+                bad = bad or 'close() left the real socket open'
+        except Exception as e:
+            bad = bad or 'raised %r' % (e,)
+        finally:
+            b.close()
+        return dict(confirmed=bad is not None, call='fileno / shutdown / close through the cipher wrappers on a socketpair',
+                    observed=bad or 'conforms')
+
+    def bounded(self, rng, tier):
+        rp = self.replay(None, '')
+        return dict(name='C18.wrapper.socketpair', evaluations=1, bound='one real socketpair',
+                    failures=[dict(call=rp['call'], observed=rp['observed'], witness='delegation')] if rp['confirmed'] else [])
+
+
 def units(tier):
-    us = [Glue()]
+    us = [Glue(), WrapperDelegation()]
     for u, nm in ((c01.CipherFile(), 'C18.stream.file'), (c01.CipherSocket(), 'C18.stream.socket'), (c10.EncStep(), 'C18.installation')):
         u.prop, u.name = 'C18', nm
         us.append(u)
